@@ -1,16 +1,131 @@
-(* C11 - PLACEHOLDER statement file (I_own preservation, C11_subtree, C11_removed are written by the proof
-   task); computed facts about the model only. *)
-From PJ Require Import Base.Prelude Graph.Model Graph.Invariant.
+(* C11 - "At every moment a task reports WBS X as its owner exactly when it is reachable from X's root tasks (it
+   appears in X.tasks); this holds for whole subtrees when they are adopted, moved or removed.  A task removed
+   from a WBS (by remove, remove_all, list removal or by being left out of a children/roots assignment) reports
+   no owner, no longer appears in the WBS, and can be attached to another WBS."
+
+   Statement file; proofs in Graph/C11Proofs.v (on top of C01: Graph/StepProofs.v).
+   released s t : WF s, t is a task, nothing in the subtree of t has an owner or appears in the tasks of a WBS,
+   and the ownership clause of the parent setter ("Parent must be from same WBS", own_guard) accepts ANY new
+   parent for t.  (Whether a later attachment is accepted then depends only on the other guards - ids, cycles,
+   links - as for any detached task.) *)
+From PJ Require Import Base.Prelude Graph.Model Graph.Invariant Graph.AncLemmas Graph.LinksProofs Graph.ParentProofs
+  Graph.ChildrenOps Graph.OracleProofs Graph.StepProofs Graph.C05Proofs Graph.C11Proofs.
 Local Open Scope nat_scope.
 
-(* a concrete history: one WBS, three tasks (ids 1, 2, 1), task 2 below task 1 in the WBS, a dependency *)
+(* ---- the truth of Task.wbs ---- *)
+Theorem C11_truth : forall s t w, WF s -> pub s t ->
+  (own (get (hp s) t) = Some w <-> w < length (wroots s) /\ exists l, wbs_tasks s w = Ok l /\ In t l).
+Proof. exact C11Proofs.own_truth. Qed.
+
+Theorem C11_truth_list : forall s t w l, WF s -> pub s t -> w < length (wroots s) -> wbs_tasks s w = Ok l ->
+  (own (get (hp s) t) = Some w <-> In t l).
+Proof. exact C11Proofs.own_truth_list. Qed.
+
+Theorem C11_reach : forall ops, pub_run init ops ->
+  let s := run init ops in
+  forall t w, pub s t ->
+    (own (get (hp s) t) = Some w <-> w < length (wroots s) /\ exists l, wbs_tasks s w = Ok l /\ In t l).
+Proof. exact C11Proofs.reach_C11. Qed.
+
+(* the owner is the same along every parent chain: whole subtrees *)
+Theorem C11_whole_subtree : forall s t x, WF s -> Sub (hp s) t x -> own (get (hp s) x) = own (get (hp s) t).
+Proof. exact C11Proofs.own_Sub. Qed.
+
+(* ---- adoption / move: own changes in exactly the moved subtree ---- *)
+(* t.parent = p (also children.append / insert, roots.append): outside the subtree of t nothing changes; inside,
+   every task gets the owner of the parent actually written (None when that parent is unowned or absent) *)
+Theorem C11_subtree : forall s t p s',
+  WF s -> pub s t -> step s (SetParent t p) = (s', OK) ->
+  let h := hp s in
+  let h' := hp s' in
+  (forall x, ~ Sub h t x -> own (get h' x) = own (get h x)) /\
+  (forall x, Sub h t x -> x < length h ->
+     own (get h' x) = match eff_par s t p with Some p' => own (get h p') | None => None end).
+Proof. exact C11Proofs.subtree_set_parent. Qed.
+
+(* t.children = vs / wbs.roots = vs: the subtrees of the adopted tasks get the owner of t, the subtrees of the
+   released ones lose theirs, every other task keeps its owner *)
+Theorem C11_subtree_children : forall s t vs s',
+  WF s -> t < length (hp s) -> (forall v, In (Some v) vs -> v < length (hp s)) ->
+  set_children s t vs = (s', OK) ->
+  let h := hp s in
+  let adopted x := exists v, In (Some v) vs /\ Sub h v x in
+  let released x := exists c, In c (kids (get h t)) /\ ~ In (Some c) vs /\ Sub h c x in
+  forall x,
+    (adopted x -> forall w, own (get h t) = Some w -> own (get (hp s') x) = Some w) /\
+    (released x -> ~ (adopted x /\ own (get h t) <> None) -> own (get (hp s') x) = None) /\
+    (~ adopted x -> ~ released x -> own (get (hp s') x) = own (get h x)).
+Proof. exact ChildrenProofs.set_children_effect_own. Qed.
+
+(* ---- removal paths ---- *)
+Theorem C11_released_meaning : forall s t, released s t <->
+  WF s /\ pub s t /\
+  (forall x, Sub (hp s) t x -> own (get (hp s) x) = None) /\
+  (forall x w l, w < length (wroots s) -> Sub (hp s) t x -> wbs_tasks s w = Ok l -> ~ In x l) /\
+  (forall p, own_guard s t p = OK).
+Proof. exact C11Proofs.released_iff. Qed.
+
+(* the ownership clause is the one that rejects cross-WBS attachment *)
+Theorem C11_own_guard_is_the_clause : forall s t p, own_guard s t p <> OK -> set_parent_guard s t p = Err.
+Proof. exact ChildrenOps.set_parent_guard_own_clause. Qed.
+
+(* any detached task is released (the invariant leaves no stale owner behind) *)
+Theorem C11_detached : forall s t, WF s -> pub s t -> par (get (hp s) t) = None -> released s t.
+Proof. exact C11Proofs.detached_released. Qed.
+
+(* children.remove(t) / roots.remove(t): always accepted on a well-formed state *)
+Theorem C11_removed_list : forall s o t,
+  WF s -> In t (kids (get (hp s) o)) ->
+  let s' := fst (ch_remove s o (Some t)) in
+  snd (ch_remove s o (Some t)) = OK /\ released s' t /\ par (get (hp s') t) = None /\
+  ~ In t (kids (get (hp s') o)) /\
+  (forall x, In x (subtree (hp s) t) -> own (get (hp s') x) = None).
+Proof. exact C11Proofs.ch_remove_released. Qed.
+
+(* WBS.remove(t) for a member anywhere in the WBS *)
+Theorem C11_removed_wbs : forall s w t,
+  WF s -> member s w t ->
+  let s' := fst (wbs_remove s w (Some t)) in
+  snd (wbs_remove s w (Some t)) = OK /\ released s' t /\ par (get (hp s') t) = None /\
+  (forall x, In x (subtree (hp s) t) -> own (get (hp s') x) = None).
+Proof. exact C11Proofs.wbs_remove_released. Qed.
+
+(* left out of a children / roots assignment *)
+Theorem C11_removed_assignment : forall s t vs s' c,
+  WF s -> t < length (hp s) -> pubs s vs -> set_children s t vs = (s', OK) ->
+  In c (kids (get (hp s) t)) -> ~ In (Some c) vs ->
+  released s' c /\ par (get (hp s') c) = None.
+Proof. exact C11Proofs.set_children_released. Qed.
+
+(* children.remove_all(id_in_=ids) / roots.remove_all: every matching child *)
+Theorem C11_removed_list_all : forall s o ids c,
+  WF s -> In c (kids (get (hp s) o)) -> In (tid (get (hp s) c)) ids ->
+  let s' := fst (ch_remove_all s o ids) in
+  snd (ch_remove_all s o ids) = OK /\ released s' c /\ par (get (hp s') c) = None.
+Proof. exact C11Proofs.ch_remove_all_released. Qed.
+
+(* WBS.remove_all(id_in_=ids): every matching member, at any depth (a matching task below another matching task
+   leaves with it and keeps its parent, hence no "par = None" here) *)
+Theorem C11_removed_wbs_all : forall s w ids c,
+  WF s -> w < length (wroots s) -> member s w c -> In (tid (get (hp s) c)) ids ->
+  let s' := fst (wbs_remove_all s w ids) in
+  snd (wbs_remove_all s w ids) = OK /\ released s' c.
+Proof. exact C11Proofs.wbs_remove_all_released. Qed.
+
+(* ---- the oracle on snapshots ---- *)
+Theorem C11_oracle : forall s, NoDup (wroots s) -> I_acy s -> (wf_own_b s = true <-> I_own s).
+Proof. exact OracleProofs.wf_own_b_spec. Qed.
+
+(* ---- non-vacuity ---- *)
 Definition demo_ops : list op :=
   [NewWbs; NewTask 1%Z None [] None; NewTask 2%Z None [] None; NewTask 1%Z None [] None;
    ChAppend 0 (Some 1); SetParent 2 (Some 1); SetLinks true 3 [Some 2]].
 Definition demo : state := run init demo_ops.
+
 (* adoption gives the whole subtree the owner; removal takes it away from the whole subtree; the removed
-   subtree can then be attached to a second WBS *)
+   subtree can then be attached to a second WBS; every call is public, so every state is well-formed by C01 *)
 Example C11_demo_owner :
+  pub_run init (demo_ops ++ [WbsRemove 0 (Some 1); NewWbs; ChAppend 4 (Some 1)]) /\
   map (fun x => own (get (hp demo) x)) [1; 2; 3] = [Some 0; Some 0; None] /\
   (let s1 := fst (step demo (WbsRemove 0 (Some 1))) in
    map (fun x => own (get (hp s1) x)) [1; 2] = [None; None] /\ wbs_tasks s1 0 = Ok [] /\ wf_own_b s1 = true /\
@@ -19,11 +134,38 @@ Example C11_demo_owner :
    outcome_code (snd r) = 0 /\ map (fun x => own (get (hp (fst r)) x)) [1; 2] = [Some 1; Some 1] /\ wf_own_b (fst r) = true).
 Proof. vm_compute. repeat split; reflexivity. Qed.
 
+(* the hypotheses of the removal theorems hold on the demo state: 1 is a root task of WBS 0, 2 a member below it *)
+Example C11_demo_hypotheses :
+  wf_b demo = true /\ In 1 (kids (get (hp demo) 0)) /\ wbs_tasks demo 0 = Ok [1; 2] /\
+  map (fun o => outcome_code (snd (step demo o)))
+      [ChRemove 0 (Some 1); WbsRemove 0 (Some 2); SetChildren 0 []; ChRemoveAll 0 [1%Z]; WbsRemoveAll 0 [2%Z; 1%Z]]
+    = [0; 0; 0; 0; 0] /\
+  map (fun o => map (fun x => own (get (hp (fst (step demo o))) x)) [1; 2])
+      [ChRemove 0 (Some 1); WbsRemove 0 (Some 2); SetChildren 0 []; ChRemoveAll 0 [1%Z]; WbsRemoveAll 0 [2%Z; 1%Z]]
+    = [[None; None]; [Some 0; None]; [None; None]; [None; None]; [None; None]].
+Proof. vm_compute. repeat split; try reflexivity. left; reflexivity. Qed.
+
 (* wf_own_b is not trivially true: a removed task that kept its owner pointer (defect F5) *)
 Example C11_stale_owner_rejected_by_wf_own_b :
   wf_own_b (mkS [mkT 9223372036854775807%Z None [] [] [] (Some 0) true None [] None;
                  mkT 1%Z None [] [] [] (Some 0) false None [] None] [0]) = false.
 Proof. vm_compute. reflexivity. Qed.
 
+Print Assumptions C11_truth.
+Print Assumptions C11_truth_list.
+Print Assumptions C11_reach.
+Print Assumptions C11_whole_subtree.
+Print Assumptions C11_subtree.
+Print Assumptions C11_subtree_children.
+Print Assumptions C11_released_meaning.
+Print Assumptions C11_own_guard_is_the_clause.
+Print Assumptions C11_detached.
+Print Assumptions C11_removed_list.
+Print Assumptions C11_removed_wbs.
+Print Assumptions C11_removed_assignment.
+Print Assumptions C11_removed_list_all.
+Print Assumptions C11_removed_wbs_all.
+Print Assumptions C11_oracle.
 Print Assumptions C11_demo_owner.
+Print Assumptions C11_demo_hypotheses.
 Print Assumptions C11_stale_owner_rejected_by_wf_own_b.
